@@ -1456,7 +1456,7 @@ od_clone!(c02_od_clone__offset_clone_arc, |n| Arc::into_raw_offset(mk(Tr8::new()
 od_clone!(c02_od_clone__borrow_clone_arc, |n| mk(Tr8::new(), n), |h: &Arc<Tr8>| h.borrow_arc().clone_arc());
 // @h props=C02 build=shim fuc=ThinArc::clone
 od_clone!(c02_od_clone__thin, |n| crate::thin_arc::kani_h::mk_thin_u32(n).0, |h: &crate::ThinArc<u16, u32>| h.clone());
-// @h props=C02 build=shim fuc=ArcUnion::clone
+// @h props=C02,C12,C04,C03 build=shim fuc=ArcUnion::clone
 od_clone!(c02_od_clone__union_second, |n| crate::ArcUnion::<Tr8, Tr16>::from_second(mk(Tr16::new(), n)), |h: &crate::ArcUnion<Tr8, Tr16>| h.clone());
 // @h props=C02 build=shim tier=thorough fuc=ArcUnion::clone
 od_clone!(c02_od_clone__union_first, |n| crate::ArcUnion::<Tr8, Tr16>::from_first(mk(Tr8::new(), n)), |h: &crate::ArcUnion<Tr8, Tr16>| h.clone());
